@@ -53,8 +53,11 @@ def cached_template(
 
     template_cls = template_cls or Template
     template_cls_path = get_import_path(template_cls)
-    engine_cls_path = get_import_path(engine.__class__) if engine else None
-    cache_key = (template_cls_path, template_string, engine_cls_path)
+    # NOTE: Two engines of the same class may be configured differently (builtins, libraries,
+    #       string_if_invalid, loaders, ...), so the key must tell apart engine INSTANCES.
+    #       The cached Template keeps its engine alive, so the id cannot be reused while the entry is cached.
+    engine_key = (get_import_path(engine.__class__), id(engine)) if engine else None
+    cache_key = (template_cls_path, template_string, engine_key)
 
     maybe_cached_template: Optional[Template] = template_cache.get(cache_key)
     if maybe_cached_template is None:
